@@ -58,6 +58,7 @@ func (e *Exec) execStmt(st *State, s ast.Stmt, label string) *State {
 		return st
 	}
 	e.curPos = s.Pos()
+	e.syncCtx(st.pc.S)
 	switch s := s.(type) {
 	case *ast.BlockStmt:
 		return e.execBlock(st, s.List)
@@ -602,6 +603,7 @@ type snapshot struct {
 	declaredLog                  int
 	bounded                      int
 	nunrolled                    int
+	ctxPC                        string
 }
 
 func (e *Exec) snap() snapshot {
@@ -609,7 +611,8 @@ func (e *Exec) snap() snapshot {
 	for k, v := range e.counters {
 		c[k] = v
 	}
-	return snapshot{len(e.decls), len(e.assumps), len(e.obls), len(e.unsupported), c, len(e.declLog), e.boundedK, len(e.unrolled)}
+	e.syncCtx(e.ctxPC)
+	return snapshot{len(e.decls), len(e.assumps), len(e.obls), len(e.unsupported), c, len(e.declLog), e.boundedK, len(e.unrolled), e.ctxPC}
 }
 
 func (e *Exec) rollback(s snapshot) {
@@ -620,6 +623,13 @@ func (e *Exec) rollback(s snapshot) {
 			delete(e.atags, i)
 		}
 	}
+	for i := range e.actx {
+		if i >= s.nassump {
+			delete(e.actx, i)
+		}
+	}
+	e.ctxMark = s.nassump
+	e.ctxPC = s.ctxPC
 	e.obls = e.obls[:s.nobl]
 	e.unsupported = e.unsupported[:s.nunsup]
 	e.counters = s.counters
